@@ -66,10 +66,17 @@ Proof.
   - intros H. auto.
 Qed.
 
-Section Refine.
-  Variable ir : ir_program.
-  Variable DB : str -> nat -> list fact.          (* the database of dynamic facts *)
-  Notation prog := (prog ir DB nouser).
+Definition callT := str -> list term -> st -> list st * bool.
+
+(* ------------------------------------------------------------------------------------------------
+   GENERIC PART: any machine program `prog` (what a call `query(name, args)` runs) and any big-step
+   call semantics `BQ d` (d = remaining depth).  Everything up to FSpec_nexts / gen_refines depends on
+   the two only through CallOK: "the generator object of a call yields the answers of BQ d". *)
+Section Gen.
+  Variable prog : callp -> code lx fr callp * fr.
+  Variable BQ : nat -> callT.
+  Definition mq (name : str) (args : list term) (nx : nat) : GenMachine.iter leaf lx fr callp :=
+    IFresh (fst (prog (name, args, nx))) (snd (prog (name, args, nx))).
   Notation mexec := (exec mkleaf lnext lclose prog f_nxt).
   Notation mcont := (cont mkleaf lnext lclose prog f_nxt).
   Notation mloop := (loop mkleaf lnext lclose prog f_nxt).
@@ -122,7 +129,7 @@ Section Refine.
   Definition ISpec (D : nat) (h0 : heap) (g0 : nat) (r : list st * bool) (h : heap) (it : miter) : Prop :=
     FSpec D g0 (fst r) (if snd r then RRaise else RStop) (fun n => minext n D h it) /\ MInv h0 it h.
 
-  Definition J (d : nat) := Machine.iter (queryF ir DB d).
+  Definition J (d : nat) := Machine.iter (BQ d).
   Definition XL (d : nat) := IRSem.exec_list (J d) assign.
   Definition XS (d : nat) := IRSem.exec_stmt (J d) assign.
 
@@ -251,7 +258,7 @@ Section Refine.
 
   (* ---------------------------------------------------------------- statements *)
   Definition CallOK (d : nat) : Prop := forall g0 name args nx h, wf h ->
-    ISpec d h g0 (queryF ir DB d name args (mkst h nx)) h (m_query ir DB nouser name args nx).
+    ISpec d h g0 (BQ d name args (mkst h nx)) h (mq name args nx).
 
   Lemma ispec_iter d : CallOK d -> forall it (k : mkont) e h xs err, wf h ->
     J d it (f_env e, mkst h (kn k e)) = (xs, err) ->
@@ -270,7 +277,7 @@ Section Refine.
       inversion HJ; subst. exists ys. split; [reflexivity|]. cbn [mkiter]. rewrite <- U. apply ispec_unify. exact W.
     - destruct (str_eqb f (s_ "query")); [|apply (R [] HJ eq_refl)].
       destruct a; try (apply (R [] HJ eq_refl)). destruct b; try (apply (R [] HJ eq_refl)).
-      destruct (queryF ir DB d s (map (eval_expr (f_env e)) items) (mkst h (kn k e))) as [ys ee] eqn:U.
+      destruct (BQ d s (map (eval_expr (f_env e)) items) (mkst h (kn k e))) as [ys ee] eqn:U.
       inversion HJ; subst. exists ys. split; [reflexivity|]. cbn [mkiter]. rewrite <- U. apply HC. exact W.
   Qed.
 
@@ -544,7 +551,7 @@ Section Refine.
   Qed.
 
   Lemma ispec_call d : CallOK d -> forall goal extra g (e : fr) h, wf h ->
-    ISpec d h g (call_goal (queryF ir DB d) goal extra (mkst h g)) h (mkiter mkleaf prog (call_expr goal extra g e h) h).
+    ISpec d h g (call_goal (BQ d) goal extra (mkst h g)) h (mkiter mkleaf prog (call_expr goal extra g e h) h).
   Proof.
     intros HC goal extra g e h W. unfold call_goal, call_expr. cbn [sto mkst]. rewrite dfast_eq, <- den_fast_eq.
     destruct (den_fast h goal); try apply ispec_raise; cbn [mkiter]; apply HC; exact W.
@@ -643,8 +650,8 @@ Section Refine.
 
   Lemma builtin_sim d : CallOK d -> forall name args nx h g0, wf h ->
     FSpec (S d) g0
-      (fst (match builtin (queryF ir DB d) name args (mkst h nx) with Some r => r | None => ([], false) end))
-      (rend (snd (match builtin (queryF ir DB d) name args (mkst h nx) with Some r => r | None => ([], false) end)))
+      (fst (match builtin (BQ d) name args (mkst h nx) with Some r => r | None => ([], false) end))
+      (rend (snd (match builtin (BQ d) name args (mkst h nx) with Some r => r | None => ([], false) end)))
       (fun n => mexec n d h (fst (builtin_code name args)) KNil (fr0 (snd (builtin_code name args)) nx)).
   Proof.
     intros HC name args nx h g0 W. unfold builtin, builtin_code.
@@ -660,17 +667,17 @@ Section Refine.
     destruct (str_eqb name (s_ "call")).
     { destruct args as [|g extra]; cbn [fst snd].
       - exists 1, h, IDone. intros n L. destruct n as [|n]; [lia|]. reflexivity.
-      - destruct (call_goal (queryF ir DB d) g extra (mkst h nx)) as [xs err] eqn:U. cbn [fst snd].
+      - destruct (call_goal (BQ d) g extra (mkst h nx)) as [xs err] eqn:U. cbn [fst snd].
         apply yield_for; auto. cbn [f_nxt fr0]. rewrite <- U. apply ispec_call; auto. }
     destruct (str_eqb name (s_ "once")).
     { destruct args as [|g [|b rest]]; try apply skip_spec. cbn [fst snd].
-      destruct (call_goal (queryF ir DB d) g [] (mkst h nx)) as [xs err] eqn:U.
+      destruct (call_goal (BQ d) g [] (mkst h nx)) as [xs err] eqn:U.
       pose proof (once_for d (call_expr g []) g0 (fr0 [] nx) h xs err W) as H. cbn [f_nxt fr0] in H.
       pose proof (ispec_call d HC g [] nx (fr0 [] nx) h W) as HI. rewrite U in HI. specialize (H HI).
       destruct xs; exact H. }
     destruct (str_eqb name (s_ "findall")).
     { destruct args as [|t [|g [|l [|c rest]]]]; try apply skip_spec. cbn [fst snd].
-      destruct (call_goal (queryF ir DB d) g [] (mkst h nx)) as [xs err] eqn:U.
+      destruct (call_goal (BQ d) g [] (mkst h nx)) as [xs err] eqn:U.
       pose proof (ispec_call d HC g [] nx (fr0 [] nx) h W) as HI. rewrite U in HI.
       eapply FSpec_ev; [exists 0, 2, 0; intros n _; cbn [Nat.add]; rewrite exec_S, exec_S; reflexivity|].
       apply (findall_loop d t (KSeq _ KNil) g0 h W xs err (fr0 [] nx) h _ _ _ HI).
@@ -688,9 +695,6 @@ Section Refine.
       apply yield_for; auto. cbn [mkiter]. rewrite Ea, En, <- U2. apply ispec_unify. exact W. }
     apply skip_spec.
   Qed.
-
-  (* ---------------------------------------------------------------- the theorem *)
-  Hypothesis OK : ir_ok ir.
 
   (* ---- dynamic facts: for _ in unify_arrays(args, <copy of the fact>): yield False ---- *)
   Definition arrays_st (h : heap) (g : nat) (xs ys : list term) : list st * bool :=
@@ -769,6 +773,83 @@ Section Refine.
                  g0 e1 h [] true _ CErr (f_fl e1) [] RRaise W HI (loop_yield _ _ _)). cbn [Kont]. auto.
   Qed.
 
+  Notation gnexts := (nexts mkleaf lnext lclose prog f_nxt).
+
+  Lemma FSpec_nexts D g0 xs rf : rf <> RYield -> forall k h it,
+    FSpec D g0 xs rf (fun n => minext n D h it) ->
+    exists N hf itf, forall n, N <= n ->
+      gnexts n D k h it = Some (hf, itf, map sto (firstn k xs), if Nat.leb k (length xs) then RYield else rf).
+  Proof.
+    intros NY. induction xs as [|x r IH]; intros k h it H; cbn [FSpec] in H.
+    - destruct k as [|k].
+      + exists 0, h, it. intros n _. reflexivity.
+      + destruct H as [N [hf [it' H]]]. exists N, hf, it'. intros n Ln.
+        cbn [nexts]. rewrite (H n Ln). destruct rf; try reflexivity. congruence.
+    - destruct k as [|k].
+      + exists 0, h, it. intros n _. reflexivity.
+      + destruct H as [N [it' [H [_ [_ R]]]]]. destruct (IH k _ _ R) as [N' [hf [itf HN]]].
+        exists (N + N'), hf, itf. intros n Ln.
+        cbn [nexts]. rewrite (H n) by lia. rewrite (HN n) by lia.
+        reflexivity.
+  Qed.
+
+  (* the generic refinement theorem: if the generator object of every call yields the answers of Q,
+     then driving it as a consumer does (at most k resumptions) gives the first k answer stores, the
+     end marker of Q, and the initial heap *)
+  Theorem gen_refines d name args nx h k : CallOK d -> wf h ->
+    exists N hf itf, forall n, N <= n ->
+      gnexts n d k h (mq name args nx) =
+      Some (hf, itf, map sto (firstn k (fst (BQ d name args (mkst h nx)))),
+            if Nat.leb k (length (fst (BQ d name args (mkst h nx)))) then RYield
+            else rend (snd (BQ d name args (mkst h nx))))
+      /\ (length (fst (BQ d name args (mkst h nx))) < k -> hf = h).
+  Proof.
+    intros HC W. destruct (HC 0 name args nx h W) as [HF _].
+    assert (NY: rend (snd (BQ d name args (mkst h nx))) <> RYield) by (destruct (snd _); discriminate).
+    destruct (FSpec_nexts d 0 _ _ NY k _ _ HF) as [N [hf [itf H]]].
+    exists N, hf, itf. intros n Ln. split; [exact (H n Ln)|]. intros Lk.
+    pose proof (H n Ln) as Hn. apply Nat.leb_gt in Lk. rewrite Lk in Hn.
+    destruct (query_restores mkleaf lnext lclose prog f_nxt linv L_new L_next L_close L_ext _ _ _ _ _ _ Hn) as [_ [A _]].
+    apply A. exact NY.
+  Qed.
+
+  Lemma lnext_mono_S n h l r : lnext n h l = Some r -> lnext (S n) h l = Some r.
+  Proof.
+    destruct l as [g|]; cbn [lnext]; auto. rewrite !next_x_eq.
+    destruct (next n h g) as [[[h' g'] y]|] eqn:N; [|discriminate]. rewrite (next_mono_S _ _ _ N). auto.
+  Qed.
+
+  Theorem gen_refines_fuel d name args nx h k n hf itf ys r : CallOK d -> wf h ->
+    gnexts n d k h (mq name args nx) = Some (hf, itf, ys, r) ->
+    ys = map sto (firstn k (fst (BQ d name args (mkst h nx)))) /\
+    r = (if Nat.leb k (length (fst (BQ d name args (mkst h nx)))) then RYield
+         else rend (snd (BQ d name args (mkst h nx)))).
+  Proof.
+    intros HC W H. destruct (gen_refines d name args nx h k HC W) as [N [hf' [itf' HN]]].
+    destruct (HN (n + N)) as [A _]; [lia|].
+    rewrite (nexts_mono _ _ _ _ mkleaf lnext lclose prog f_nxt lnext_mono_S n (n + N) d k h _ _ H) in A by lia.
+    inversion A; subst. auto.
+  Qed.
+End Gen.
+
+(* ------------------------------------------------------------------------------------------------
+   INSTANCE 1: the engine running a compiled program with a database of dynamic facts
+   (IRMachine.prog ir DB nouser  against  QueryFacts.queryF ir DB) *)
+Section Refine.
+  Variable ir : ir_program.
+  Variable DB : str -> nat -> list fact.          (* the database of dynamic facts *)
+  Notation prog := (prog ir DB nouser).
+  Notation mexec := (exec mkleaf lnext lclose prog f_nxt).
+  Notation minext := (inext mkleaf lnext lclose prog f_nxt).
+  Notation mcode := (code lx fr callp).
+  Notation FSpec := (FSpec prog).
+  Notation CallOK := (CallOK prog (queryF ir DB)).
+  Notation fun_sim := (fun_sim prog (queryF ir DB)).
+  Notation builtin_sim := (builtin_sim prog (queryF ir DB)).
+  Notation facts_sim := (facts_sim prog).
+  Notation FSpec_S := (FSpec_S prog).
+  Hypothesis OK : ir_ok ir.
+
   (* the function / builtin part of a query, and its code *)
   Definition part (d : nat) (name : str) (args : list term) (s : st) : list st * bool :=
     match find_func ir name (length args) with
@@ -814,9 +895,9 @@ Section Refine.
   Theorem call_ok : forall d, CallOK d.
   Proof.
     induction d as [|d IH]; intros g0 name args nx h W; (split; [|constructor]).
-    - cbn [queryF fst snd FSpec]. exists 1, h, (m_query ir DB nouser name args nx). intros n L.
+    - cbn [queryF fst snd FSpec]. exists 1, h, (mq prog name args nx). intros n L.
       destruct n as [|n]; [lia|]. reflexivity.
-    - eapply FSpec_S; [intros n; unfold m_query; apply inext_S|]. cbn beta iota.
+    - eapply FSpec_S; [intros n; unfold mq; apply inext_S|]. cbn beta iota.
       rewrite queryF_S, prog_eq. cbn [fst snd sto mkst].
       assert (HR: forall nx', FSpec (S d) g0 (fst (part d name args (mkst h nx'))) (rend (snd (part d name args (mkst h nx'))))
                                 (fun n => mexec n d h (fst (code_env name args)) KNil (fr0 (snd (code_env name args)) nx'))).
@@ -843,24 +924,6 @@ Section Refine.
 
   Notation mnexts := (m_nexts ir DB nouser).
 
-  Lemma FSpec_nexts D g0 xs rf : rf <> RYield -> forall k h it,
-    FSpec D g0 xs rf (fun n => minext n D h it) ->
-    exists N hf itf, forall n, N <= n ->
-      mnexts n D k h it = Some (hf, itf, map sto (firstn k xs), if Nat.leb k (length xs) then RYield else rf).
-  Proof.
-    intros NY. induction xs as [|x r IH]; intros k h it H; cbn [FSpec] in H.
-    - destruct k as [|k].
-      + exists 0, h, it. intros n _. reflexivity.
-      + destruct H as [N [hf [it' H]]]. exists N, hf, it'. intros n Ln.
-        unfold m_nexts. cbn [nexts]. rewrite (H n Ln). destruct rf; try reflexivity. congruence.
-    - destruct k as [|k].
-      + exists 0, h, it. intros n _. reflexivity.
-      + destruct H as [N [it' [H [_ [_ R]]]]]. destruct (IH k _ _ R) as [N' [hf [itf HN]]].
-        exists (N + N'), hf, itf. intros n Ln.
-        unfold m_nexts. cbn [nexts]. rewrite (H n) by lia. unfold m_nexts in HN. rewrite (HN n) by lia.
-        reflexivity.
-  Qed.
-
   (* THE REFINEMENT THEOREM.  xs / err = the answer states and the error flag of the big-step
      semantics.  The generator object of the query, resumed (each time under the heap it left) at
      most k times - ANY abandonment point k - yields exactly the first k answer stores, in order;
@@ -873,20 +936,7 @@ Section Refine.
             if Nat.leb k (length (fst (queryF ir DB d name args (mkst h nx)))) then RYield
             else rend (snd (queryF ir DB d name args (mkst h nx))))
       /\ (length (fst (queryF ir DB d name args (mkst h nx))) < k -> hf = h).
-  Proof.
-    intros W. destruct (call_ok d 0 name args nx h W) as [HF _].
-    assert (NY: rend (snd (queryF ir DB d name args (mkst h nx))) <> RYield) by (destruct (snd _); discriminate).
-    destruct (FSpec_nexts d 0 _ _ NY k _ _ HF) as [N [hf [itf H]]].
-    exists N, hf, itf. intros n Ln. split; [exact (H n Ln)|]. intros Lk.
-    pose proof (H n Ln) as Hn. apply Nat.leb_gt in Lk. rewrite Lk in Hn.
-    destruct (compiled_query_restores ir DB nouser _ _ _ _ _ _ _ Hn) as [_ [_ [A _]]]. apply A. exact NY.
-  Qed.
-
-  Lemma lnext_mono_S n h l r : lnext n h l = Some r -> lnext (S n) h l = Some r.
-  Proof.
-    destruct l as [g|]; cbn [lnext]; auto. rewrite !next_x_eq.
-    destruct (next n h g) as [[[h' g'] y]|] eqn:N; [|discriminate]. rewrite (next_mono_S _ _ _ N). auto.
-  Qed.
+  Proof. intros W. exact (gen_refines prog (queryF ir DB) d name args nx h k (call_ok d) W). Qed.
 
   (* ... and for WHATEVER fuel the machine returns a value at *)
   Theorem machine_refines_irsem_fuel d name args nx h k n hf itf ys r : wf h ->
@@ -894,13 +944,7 @@ Section Refine.
     ys = map sto (firstn k (fst (queryF ir DB d name args (mkst h nx)))) /\
     r = (if Nat.leb k (length (fst (queryF ir DB d name args (mkst h nx)))) then RYield
          else rend (snd (queryF ir DB d name args (mkst h nx)))).
-  Proof.
-    intros W H. destruct (machine_refines_irsem d name args nx h k W) as [N [hf' [itf' HN]]].
-    destruct (HN (n + N)) as [A _]; [lia|].
-    unfold m_nexts in *.
-    rewrite (nexts_mono _ _ _ _ mkleaf lnext lclose prog f_nxt lnext_mono_S n (n + N) d k h _ _ H) in A by lia.
-    inversion A; subst. auto.
-  Qed.
+  Proof. intros W. exact (gen_refines_fuel prog (queryF ir DB) d name args nx h k n hf itf ys r (call_ok d) W). Qed.
 
   (* the same with the cell counters: the i-th suspension of the generator object carries the
      counter of the i-th answer *)
